@@ -108,7 +108,7 @@ def rand_text(rng, alpha, maxlines=6):
     return "\n".join(ls)
 
 
-def rand_cfg(rng, tabs=False, wide_before=False):
+def rand_cfg(rng, tabs=False, wide_before=False, odd_prefix=None):
     wrap = rng.randint(0, 1)
     margin = rng.choice([0, 0, 0, 0, 1, 2, 2, 3])
     offs = [rng.choice([0, 0, 1, 2, 3]) for _ in range(4)]
@@ -119,6 +119,10 @@ def rand_cfg(rng, tabs=False, wide_before=False):
         pf = (a, "." * len(a), 0)                       # constant width
     elif r < 0.3:
         pf = (rng.choice([">", "> ", "", ""]), rng.choice([".", ". ", ">> ", ""]), rng.randint(0, 1))   # variable width
+    if odd_prefix and rng.random() < 0.3:
+        pf = (rng.choice(odd_prefix), rng.choice(odd_prefix + ["."]), 0)   # wide / control characters in the line prefix
+    if rng.random() < 0.08:
+        offs = [rng.choice([0, 4, 7, 20]) for _ in range(4)]              # offsets larger than the window
     before = rng.choice(["$ ", "in: ", ""]) if rng.random() < 0.2 else None
     if wide_before and rng.random() < 0.5:
         before = rng.choice(["提示> ", "界 ", "a界"])          # double-width characters in the text before the input
@@ -132,7 +136,13 @@ def rand_states(rng, cfg, alpha, n):
     extra = margin_extra(cfg)
     t = rand_text(rng, alpha) if rng.random() < 0.7 else ""
     cur = rng.randint(0, len(t))
-    W, H = rng.randint(1, 12) + extra, rng.randint(1, 6)
+    big = rng.random() < 0.08
+
+    def size():
+        if big:
+            return rng.randint(1, 30) + extra, rng.randint(1, 15)
+        return rng.randint(1, 12) + extra, rng.randint(1, 6)
+    W, H = size()
     xp, yp = rng.randint(0, 3), rng.randint(0, 2)
     states = []
     for _ in range(n):
@@ -149,7 +159,7 @@ def rand_states(rng, cfg, alpha, n):
         elif r < 0.75:
             cur = rng.choice([0, len(t), rng.randint(0, len(t))])
         elif r < 0.85:
-            W, H = rng.randint(1, 12) + extra, rng.randint(1, 6)
+            W, H = size()
         elif r < 0.92 and cur > 0:
             k = rng.randint(1, min(cur, 4))
             t = t[:cur - k] + t[cur:]
@@ -170,7 +180,8 @@ def gen_random(chk, dist):
     for dom, n in plan:
         for _ in range(n):
             alpha = rng.choice(ALPHABETS[dom])
-            cfg = rand_cfg(rng, tabs=(dom == "tabs") or (dom == "wide" and rng.random() < 0.3), wide_before=(dom == "wide"))
+            cfg = rand_cfg(rng, tabs=(dom == "tabs") or (dom == "wide" and rng.random() < 0.3), wide_before=(dom == "wide"),
+                           odd_prefix={"wide": ["界>", "界"], "control": ["\x01>", "\x01", "́>"]}.get(dom))
             states = rand_states(rng, cfg, alpha, rng.randint(1, 8))
             cases.append(mkcase(cfg, states))
             dist["random_sequence_" + dom] += 1
@@ -186,6 +197,32 @@ def gen_random(chk, dist):
             states.append([W, H, 1, 1, S(t), len(t)])
         cases.append(mkcase(cfg, states))
         dist["typing_run"] += 1
+    # documents around 100 lines with a NumberedMargin: its width changes from 3 to 4 at 100 lines
+    # (ndigits + 1), also in the middle of a history (typing / deleting line ends)
+    for _ in range(150 if thorough else 24):
+        cfg = rand_cfg(rng)
+        cfg[1] = rng.choice([1, 1, 3])
+        extra = margin_extra(cfg) + 1
+        nl = rng.randint(96, 103)
+        t = "\n".join("".join(rng.choice("ab") for _ in range(rng.choice([0, 1, 3, 9]))) for _ in range(nl))
+        cur = rng.randint(0, len(t))
+        W, H = rng.randint(1, 12) + extra, rng.randint(1, 6)
+        states = []
+        for _ in range(rng.randint(2, 8)):
+            r = rng.random()
+            if r < 0.4:
+                t = t[:cur] + "\n" + t[cur:]
+                cur += 1
+            elif r < 0.7 and "\n" in t:
+                k = t.rfind("\n", 0, max(cur, 1))
+                k = k if k >= 0 else t.find("\n")
+                t = t[:k] + t[k + 1:]
+                cur = min(cur, len(t))
+            else:
+                cur = rng.choice([0, len(t), rng.randint(0, len(t))])
+            states.append([W, H, 0, 0, S(t), cur])
+        cases.append(mkcase(cfg, states))
+        dist["around_100_lines"] += 1
     # degenerate sizes (margin wider than the window, zero width): model/implementation only
     for _ in range(300 if thorough else 60):
         cfg = rand_cfg(rng)
@@ -251,7 +288,8 @@ def main(tier):
         chk.violation("tie", "model does not build: " + logm[-400:], {"kind": "model-build"}, {"log": logm[-3000:]}, no_input=True)
         return chk.finish()
 
-    dist = {"exhaustive_one_state": 0, "typing_run": 0, "small_or_degenerate_size": 0, "witnesses": len(WITNESSES)}
+    dist = {"exhaustive_one_state": 0, "typing_run": 0, "small_or_degenerate_size": 0, "around_100_lines": 0,
+            "witnesses": len(WITNESSES)}
     for d in ("narrow_printable", "tabs", "wide", "control"):
         dist["random_sequence_" + d] = 0
     corpus = load_corpus(PROP)
@@ -378,8 +416,8 @@ def main(tier):
                                 len(docs_small()), len(cfgs_small()), "50% sample" if chk.tier == "thorough" else "1.6% sample"))
     chk.assumptions += [
         "character widths (get_cwidth of the source character, Char.width and Char.char of the displayed form) are inputs of the model, measured on the implementation per case; the theorems quantify over arbitrary width functions",
-        "processors other than BeforeInput and TabsProcessor (highlighting, password, auto-suggestion) and margins other than NumberedMargin's width are outside the model; the default highlight processors are present in the real control and tied only as far as they leave text unchanged",
-        "allow_scroll_beyond_bottom=False, align=LEFT, no cursorline/colorcolumn, no get_vertical_scroll/get_horizontal_scroll hooks, z_index None (the defaults)",
+        "processors other than BeforeInput and TabsProcessor (highlighting, password, auto-suggestion) and of the margins anything but NumberedMargin's and ScrollbarMargin's widths are outside the model; the default highlight processors are present in the real control and tied only as far as they leave text unchanged",
+        "allow_scroll_beyond_bottom is a configuration flag (both values generated, modelled and covered by the theorems); align=LEFT, no cursorline/colorcolumn, no get_vertical_scroll/get_horizontal_scroll hooks, z_index None (the defaults); wrap mode, scroll offsets, margins, prefixes and processors are fixed per Window (per history) - only text, cursor, window size and position change between the states of a history",
         "styles and zero-width escapes are not modelled; cells are compared by their text"]
     return chk.finish()
 
